@@ -100,12 +100,31 @@ func (a *authEnv) listed(n *sim.Node) bool {
 	return n == a.w1
 }
 
+// restartReplica closes the replica's instance, starts a new one on the same durable state,
+// reopens the database and loads it.
+func (a *authEnv) restartReplica() error {
+	p := a.r.P
+	if err := a.r.Close(); err != nil {
+		return err
+	}
+	n, err := p.Start("")
+	if err != nil {
+		return err
+	}
+	a.r = n
+	if a.rr, err = n.Open(a.addr, realType(a.stype), nil); err != nil {
+		return err
+	}
+	return a.rr.S.Load(context.Background(), -1)
+}
+
 func (a *authEnv) settle() error { return sim.Settle(settleTimeout, a.w1, a.w2, a.r, a.x) }
 
 func opPayload(stype, key string) []byte {
 	switch stype {
 	case "log":
-		return []byte(fmt.Sprintf(`{"op":"ADD","value":%q}`, []byte(key)))
+		b, _ := json.Marshal(map[string]interface{}{"op": "ADD", "value": []byte(key)}) // []byte -> base64, as the store writes it
+		return b
 	case "doc":
 		doc, _ := json.Marshal(map[string]interface{}{"_id": key, "v": key})
 		b, _ := json.Marshal(map[string]interface{}{"key": key, "op": "PUT", "value": doc})
@@ -138,13 +157,25 @@ func honestWrite(ref *sim.StoreRef, stype, key string) (ipfslog.Entry, error) {
 	return op.GetEntry(), nil
 }
 
+var lastListErr string
+
 // visible reports whether a key written by some entry shows up in any query of the store.
 func visible(ref *sim.StoreRef, stype, key string) bool {
 	ctx := context.Background()
 	switch stype {
 	case "log":
 		all := -1
-		ops, _ := ref.S.(orbitdb.EventLogStore).List(ctx, &iface.StreamOptions{Amount: &all})
+		ops, err := ref.S.(orbitdb.EventLogStore).List(ctx, &iface.StreamOptions{Amount: &all})
+		hs := []string{}
+		for _, h := range ref.S.OpLog().Heads().Slice() {
+			_, in := ref.S.OpLog().Get(h.GetHash())
+			hs = append(hs, fmt.Sprintf("%s(t=%d,logid-ok=%v,in-entries=%v)", string(h.GetPayload()), h.GetClock().GetTime(), h.GetLogID() == ref.Addr, in))
+		}
+		vs := []string{}
+		for _, v := range ref.S.OpLog().Values().Slice() {
+			vs = append(vs, string(v.GetPayload()))
+		}
+		lastListErr = fmt.Sprintf("List: %d operations, err=%v, log holds %d entries, heads %v, values %v", len(ops), err, ref.S.OpLog().Len(), hs, vs)
 		for _, op := range ops {
 			if string(op.GetValue()) == key {
 				return true
@@ -295,7 +326,8 @@ func (a *authEnv) deliver(ctx context.Context, route string, e *entry.Entry) err
 		if raw, ok := a.x.P.RawBlock(e.GetHash()); ok {
 			a.w2.P.PutBlock(e.GetHash(), raw)
 		}
-		head, err := mkEntry(ctx, a.w2, a.w2.DB.Identity(), a.addr, opPayload(a.stype, "colluder"), []cid.Cid{e.GetHash()}, e.GetClock().GetTime()+1)
+		// it links to the hostile entry and to what that entry links to, so that it is the only head afterwards
+		head, err := mkEntry(ctx, a.w2, a.w2.DB.Identity(), a.addr, opPayload(a.stype, "colluder"), append([]cid.Cid{e.GetHash()}, e.GetNext()...), e.GetClock().GetTime()+1)
 		if err != nil {
 			return err
 		}
@@ -399,6 +431,22 @@ func authCmd(args []string) int {
 							res.Inconclusive = append(res.Inconclusive, bid+": "+err.Error())
 							return
 						}
+						// the replica is stopped and started from its directory while the hostile entry is the last thing it received
+						if hostile != nil && !admitted && route != "local" {
+							if err := a.restartReplica(); err != nil {
+								res.Inconclusive = append(res.Inconclusive, bid+": restart: "+err.Error())
+								return
+							}
+							if err := a.settle(); err != nil {
+								res.Inconclusive = append(res.Inconclusive, bid+": "+err.Error())
+								return
+							}
+							res.Comparisons++
+							_, inLog := a.rr.S.OpLog().Get(hostile.GetHash())
+							if vis := visible(a.rr, stype, key); inLog || vis {
+								viol("unauthorised-merged", fmt.Sprintf("entry of class %s delivered by route %s with write list %s is in the replica's log after the replica was restarted and loaded (inLog=%v, visible=%v)", class, route, list, inLog, vis), nil, nil)
+							}
+						}
 						// honest traffic afterwards
 						e2, err := honestWrite(a.rw1, stype, "honest-2")
 						if err != nil {
@@ -428,6 +476,22 @@ func authCmd(args []string) int {
 							}
 						}
 						_ = before
+						// the same after the replica has been stopped and started again from its directory
+						if hostile != nil && !admitted {
+							if err := a.restartReplica(); err != nil {
+								res.Inconclusive = append(res.Inconclusive, bid+": restart: "+err.Error())
+								return
+							}
+							if err := a.settle(); err != nil {
+								res.Inconclusive = append(res.Inconclusive, bid+": "+err.Error())
+								return
+							}
+							res.Comparisons++
+							_, inLog := a.rr.S.OpLog().Get(hostile.GetHash())
+							if vis := visible(a.rr, stype, key); inLog || vis {
+								viol("unauthorised-merged", fmt.Sprintf("entry of class %s delivered by route %s with write list %s is in the replica's log after the replica was restarted and loaded (inLog=%v, visible=%v)", class, route, list, inLog, vis), nil, nil)
+							}
+						}
 						if len(res.Samples) < 4 && hostile != nil {
 							res.Samples = append(res.Samples, map[string]interface{}{"case": bid, "admitted_by_spec": admitted,
 								"claimed_id": hostile.Identity.ID[:16], "key_is_identity_key": string(hostile.Key) == string(hostile.Identity.PublicKey)})
@@ -567,6 +631,31 @@ func runTamper(in *AuthInput, res *Result) {
 					samedb := m.LogID == a.addr
 					unchanged := realHash.Defined() && realHash.Equals(e2.GetHash()) && claimed.Equals(m.Hash)
 					mustReject := !intact || !samedb || (pos == "head" && !hashok)
+					restartCheck := func(keys []string) string {
+						if err := a.restartReplica(); err != nil {
+							return "restart: " + err.Error()
+						}
+						if err := a.settle(); err != nil {
+							return err.Error()
+						}
+						res.Comparisons++
+						for _, k := range keys {
+							if !visible(a.rr, stype, k) {
+								viol("honest-lost", fmt.Sprintf("valid entry %s is gone after the replica was restarted and loaded (%s mutated, delivered as %s, hashok=%v intact=%v samedb=%v)", k, field, pos, hashok, intact, samedb))
+							}
+						}
+						if mustReject && !unchanged {
+							for _, le := range a.rr.S.OpLog().GetEntries().Slice() {
+								// the genuine entry may have been delivered meanwhile and share the claimed hash: compare content then
+								genuine := le.GetHash().Equals(e2.GetHash()) && string(le.GetPayload()) == string(e2.GetPayload()) && string(le.GetSig()) == string(e2.GetSig()) &&
+									le.GetLogID() == e2.GetLogID() && le.GetClock().GetTime() == e2.GetClock().GetTime() && string(le.GetKey()) == string(e2.GetKey())
+								if !genuine && (le.GetHash().Equals(m.Hash) || (realHash.Defined() && le.GetHash().Equals(realHash))) {
+									viol("tampered-merged", fmt.Sprintf("mutant of field %s delivered as %s (hashok=%v intact=%v samedb=%v) is in the log after the replica was restarted and loaded", field, pos, hashok, intact, samedb))
+								}
+							}
+						}
+						return ""
+					}
 					switch pos {
 					case "head", "head-rehashed":
 						a.w.Deliver(&sim.Msg{Kind: "pub", Topic: a.addr, From: a.x.P.Name, To: a.r.P.Name, Payload: headsMsg(a.addr, m)})
@@ -597,7 +686,12 @@ func runTamper(in *AuthInput, res *Result) {
 						viol("tampered-merged", fmt.Sprintf("mutant of field %s delivered as %s (%s) was merged into the replica's log", field, pos, cls))
 					}
 					if !visible(a.rr, stype, "honest-1") {
-						viol("honest-lost", "valid entry held by the replica is no longer visible after the hostile delivery")
+						viol("honest-lost", "valid entry held by the replica is no longer visible after the hostile delivery ("+lastListErr+")")
+					}
+					// stop and start the replica from its directory: what it held must still be there, the mutant absent
+					if msg := restartCheck([]string{"honest-1"}); msg != "" {
+						res.Inconclusive = append(res.Inconclusive, bid+": "+msg)
+						return
 					}
 					// the genuine victim entry, announced honestly afterwards, must still be accepted
 					a.w.Deliver(&sim.Msg{Kind: "pub", Topic: a.addr, From: a.w1.P.Name, To: a.r.P.Name, Payload: headsMsg(a.addr, e2.(*entry.Entry))})
@@ -607,6 +701,10 @@ func runTamper(in *AuthInput, res *Result) {
 					}
 					if !visible(a.rr, stype, "victim") {
 						viol("honest-lost", "the genuine entry is not accepted after its tampered copy was delivered")
+					}
+					if msg := restartCheck([]string{"honest-1", "victim"}); msg != "" {
+						res.Inconclusive = append(res.Inconclusive, bid+": "+msg)
+						return
 					}
 					if len(res.Samples) < 4 {
 						res.Samples = append(res.Samples, map[string]interface{}{"case": bid, "class": cls, "must_reject": mustReject, "merged": merged})
